@@ -1077,6 +1077,19 @@ func checkParenExpr(x target.Expr) target.Expr {
 	return util.CheckParenExpr(x)
 }
 
+// checkParenCtrlExpr / checkParenCtrlStmt parenthesise composite literals in the
+// header of an if, for or switch statement (if T{}.ok {...} does not parse).
+func checkParenCtrlExpr(x target.Expr) target.Expr {
+	if x == nil {
+		return nil
+	}
+	return util.CheckParenCtrlExpr(x)
+}
+
+func checkParenCtrlStmt(s target.Stmt) target.Stmt {
+	return util.CheckParenCtrlStmt(s)
+}
+
 type backupElem struct {
 	typ types.Type
 	val target.Expr
